@@ -40,6 +40,8 @@ class Clock(object):
         self.sleep_calls = 0
         self.watchdog = 5.0
         self.tripped = False
+        self.calls_in_callback = 0   # kernel calls made since the loop last got control (busy-loop guard)
+        self.max_calls_in_callback = 3000
 
     def time(self):
         return self.now
@@ -66,7 +68,17 @@ class Clock(object):
         if self.blocked_in_callback > self.blocked_max:
             self.blocked_max = self.blocked_in_callback
 
+    def syscall(self):
+        """a loop callback that makes thousands of kernel calls without ever returning to the loop is a busy loop"""
+        self.calls_in_callback += 1
+        if self.tripped:
+            raise BlockedLoop('the loop thread is already blocked (nothing is served any more)')
+        if self.calls_in_callback > self.max_calls_in_callback:
+            self.tripped = True
+            raise BlockedLoop('%d kernel calls inside one loop callback (busy loop)' % self.calls_in_callback)
+
     def new_callback(self):
+        self.calls_in_callback = 0
         self.blocked_in_callback = 0.0
 
     def as_module(self):
@@ -150,6 +162,8 @@ class Kernel(object):
         self.reap_log = []          # (t, pid, status, how)
         self.call_log = []
         self.injections = []        # dicts: at_call, victim ('nth',k)|('pid',p), status
+        self.spawn_error_tags = {}    # watcher name -> exception raised by every spawn made for it
+        self.spawn_error_from = None  # (first failing attempt index, exception): every later attempt fails too
         self.spawn_failures = set()  # spawn attempt indices (0-based) that raise OSError
         self.spawn_attempts = 0
         self.behaviour = lambda index, argv: Beh()
@@ -165,6 +179,7 @@ class Kernel(object):
     # ------------------------------------------------------------------ time / injections
     def tick(self, entry):
         self.calls += 1
+        self.clock.syscall()
         if len(self.call_log) < 400:
             self.call_log.append(entry)
         for inj in self.injections:
@@ -228,6 +243,10 @@ class Kernel(object):
             raise OSError(errno.ENOENT, 'No such file or directory (injected exec failure)')
         if idx in self.spawn_errors:
             raise self.spawn_errors[idx]
+        if self.current_tag in self.spawn_error_tags:
+            raise self.spawn_error_tags[self.current_tag]     # every spawn made for that watcher fails (e.g. refused in the pre-exec step)
+        if self.spawn_error_from is not None and idx >= self.spawn_error_from[0]:
+            raise self.spawn_error_from[1]         # a persistent condition (EAGAIN: process table / RLIMIT_NPROC exhausted)
         pid = self.next_pid
         self.next_pid += 1
         beh = self.behaviour(len(self.spawn_log), argv)
@@ -280,6 +299,8 @@ class Kernel(object):
             raise PermissionError(errno.EPERM, 'Operation not permitted (injected)')
         p = self.lookup(pid)
         sig = int(sig)
+        if not 0 <= sig <= 64:
+            raise OSError(errno.EINVAL, 'Invalid argument')          # kill(2) with a number that is no signal
         if p is None or p.state == 'gone':
             self.signal_log.append({'t': self.clock.now, 'pid': pid, 'sig': sig, 'target': 'gone',
                                     'tag': p.tag if p else None, 'via': via, 'call': self.calls})
